@@ -373,3 +373,52 @@ Proof.
   - vm_compute. repeat split; try lia; intuition lia.
   - vm_compute. repeat split; try lia; intuition lia.
 Qed.
+
+(** ======================= MPE: ALL call sequences (note identity) ======================= *)
+(* (added for the seeded change C19-h: legal call sequences that are not "well-formed" in the sense of [mpe_wf])
+   IO/MpeVoices.v: a sounding note is a VOICE — the k-th note_on call (= the handle it returned), its pitch, its channel.
+   The same pitch may be struck again while held, pitches that are not held may be released, more than 15 notes may be
+   asked for, stale handles may be used.  NO hypothesis on the call sequence. *)
+From Isobar Require Import IO.MpeVoices IO.MpeVoicesProofs.
+
+(* every call sequence: a note_on with fewer than 15 voices sounding is sent on a channel of 1..15 that NO sounding
+   voice uses (whatever their pitches; with 15 sounding nothing is sent); handle.note_off() releases exactly that
+   handle's voice on ITS channel, which is free afterwards; device.note_off(n) releases one sounding voice of pitch n on
+   its channel (rejected when none sounds); expression goes to the voice's channel while it sounds *)
+Theorem C19_mpe_voices : forall cs, vtrace_ok [] 0 cs (vrun vs_init cs).
+Proof. intros cs. apply (vrun_ok cs [] 0 vinv_init). Qed.
+Print Assumptions C19_mpe_voices.
+
+(* after any call sequence the sounding voices are on pairwise distinct channels in 1..15 (so at most 15 sound) *)
+Theorem C19_mpe_voices_distinct : forall cs,
+  let l := vs_sounding (vfinal vs_init cs) in
+  NoDup (map v_chan l) /\ (forall v, In v l -> 1 <= v_chan v <= 15) /\ (List.length l <= 15)%nat.
+Proof.
+  intros cs l. pose proof (vfinal_inv cs [] 0 vinv_init) as I. fold l in I.
+  split; [apply I | split; [apply I | eapply vinv_length; exact I]].
+Qed.
+Print Assumptions C19_mpe_voices_distinct.
+
+(* any number of successive notes, whatever happened before (re-struck pitches, rejected releases ...): with fewer than
+   15 voices sounding the next note_on is sent, on a channel no sounding voice uses *)
+Theorem C19_mpe_voices_never_starved : forall cs n v,
+  let s := vfinal vs_init cs in
+  (List.length (vs_sounding s) < 15)%nat ->
+  exists c, snd (vstep s (VOn n v)) = Wire (NoteOn c n v) /\ 1 <= c <= 15 /\ ~ In c (map v_chan (vs_sounding s)).
+Proof.
+  intros cs n v s L. destruct (vnext_some (vs_sounding s) L) as [c [E [R F]]]. exists c.
+  cbn [vstep]. rewrite E. cbn [snd]. auto.
+Qed.
+Print Assumptions C19_mpe_voices_never_starved.
+
+(* the unison: 60 struck twice, then 64: three channels; the FIRST 60 released through its handle (channel 1), the next
+   note takes channel 1; device.note_off(60) releases the other 60 (channel 2); a second device.note_off(60) is rejected;
+   fifteen voices, the sixteenth note_on is dropped, after one release the next sounds *)
+Example C19_mpe_voices_nonvacuous :
+  vrun vs_init [VOn 60 100; VOn 60 90; VOn 64 80; VBend 0 100; VBend 1 (-100); VOffHandle 0; VBend 0 5; VOn 65 70;
+                VOffPitch 60; VOffPitch 60; VOffHandle 1]
+  = [Wire (NoteOn 1 60 100); Wire (NoteOn 2 60 90); Wire (NoteOn 3 64 80); Wire (PitchWheel 1 100); Wire (PitchWheel 2 (-100));
+     Wire (NoteOff 1 60 64); Silent; Wire (NoteOn 1 65 70); Wire (NoteOff 2 60 64); Rejected; Silent]
+  /\ (let cs := map (fun n => VOn n 64) (zrange 40 16) ++ [VOffHandle 3; VOn 99 1] in
+      skipn 15 (vrun vs_init cs) = [Silent; Wire (NoteOff 4 43 64); Wire (NoteOn 4 99 1)]).
+Proof. vm_compute. split; reflexivity. Qed.
